@@ -233,6 +233,35 @@ static void h_pending(int argc, char **argv)
     mc_outcome("ok");
 }
 
+/* ------------------------------------------------------------------ two threads wait in accept on one blocking listener with a time-out, one connection arrives:
+ * one of them gets it; the other finds nothing to accept after being woken and must go on waiting until its time-out (a timed-out error, not before T) */
+static int acc_ok[2], acc_code[2]; static unsigned long acc_dt[2];
+static void *acceptor(void *arg)
+{
+    int me = arg != NULL; PError *e = NULL; unsigned long t0 = ksim_clock_ms; PSocket *a = p_socket_accept(lsock, &e);
+    acc_ok[me] = a != NULL; acc_code[me] = e ? p_error_get_code(e) : 0; acc_dt[me] = ksim_clock_ms - t0;
+    if (e) p_error_free(e);
+    p_socket_free(a);
+    return NULL;
+}
+static void *one_client(void *arg) { PSocket *c = p_socket_new(fam(), P_SOCKET_TYPE_STREAM, P_SOCKET_PROTOCOL_TCP, NULL); (void)arg; if (!c || !p_socket_connect(c, laddr, NULL)) mc_fail("C09", "setup", "connect failed"); p_socket_free(c); return NULL; }
+static void h_accept2(int argc, char **argv)
+{
+    int a, b, c, i; (void)argc; (void)argv;
+    sigpipe_state(); FAM = 4; listen_setup(P_SOCKET_TYPE_STREAM);
+    p_socket_set_timeout(lsock, 50);
+    a = mc_thread_create(acceptor, NULL); b = mc_thread_create(acceptor, (void *)1); c = mc_thread_create(one_client, NULL);
+    mc_thread_join(a); mc_thread_join(b); mc_thread_join(c);
+    if (acc_ok[0] + acc_ok[1] != 1) mc_fail("C09", "accept2/connection-count", "one connection arrived, %d accept calls returned a socket", acc_ok[0] + acc_ok[1]);
+    for (i = 0; i < 2; i++) if (!acc_ok[i]) {
+        if (acc_code[i] != (int)P_ERROR_IO_TIMED_OUT) mc_fail("C09", "accept2/loser-wrong-error", "the accept that found nothing to take failed with code %d instead of a time-out (blocking socket with a time-out)", acc_code[i]);
+        if (acc_dt[i] < 50) mc_fail("C09", "timed-out-early/accept", "accept reported a time-out after %lu ms of (virtual) time, the socket's time-out is 50 ms", acc_dt[i]);
+    }
+    p_socket_free(lsock); p_socket_address_free(laddr);
+    mc_nontrivial(0);
+    mc_outcome("ok %d%d", acc_ok[0], acc_ok[1]);
+}
+
 /* ------------------------------------------------------------------ peer gone */
 static void *pg_client(void *arg) { PSocket *c = p_socket_new(fam(), P_SOCKET_TYPE_STREAM, P_SOCKET_PROTOCOL_TCP, NULL); (void)arg; if (!c || !p_socket_connect(c, laddr, NULL)) mc_fail("C09", "setup", "connect failed"); p_socket_free(c); return NULL; }
 static void h_peergone(int argc, char **argv)
@@ -254,5 +283,6 @@ static void h_peergone(int argc, char **argv)
 }
 
 static const McHarness HS[] = { {"stream", h_stream, "<msglen> <sendchunk> <recvbuf> <cli-blocking> <srv-blocking> <family>"}, {"dgram", h_dgram, "<recvbuf> <family>"}, {"peergone", h_peergone, ""}, {"halfclose", h_halfclose, ""},
+    {"accept2", h_accept2, "two acceptors, one connection"},
     {"pending", h_pending, "<b<timeout>|n>: connect to a listener that never completes the handshake"} };
 int main(int argc, char **argv) { return mc_main(argc, argv, HS, (int)(sizeof HS / sizeof HS[0])); }
